@@ -122,6 +122,12 @@ def reuse_variants(t):
             u = mk(child)
             out.append((('bin', 'and', t, u), f'reference required as {sorted(req)[0]} reused as {name}'))
             out.append((('bin', 'and', u, t), f'reference required as {sorted(req)[0]} reused as {name}'))
+            # a third, loosely typed occurrence between the two clashing ones
+            weak = ('bin', '=', child, tf('zz'))
+            weak2 = ('bin', 'in', child, ('set', (tf('zz'),)))
+            for w in (weak, weak2):
+                out.append((('bin', 'and', ('bin', 'and', t, w), u), f'reference required as {sorted(req)[0]} reused as {name} with a loosely typed occurrence in between'))
+                out.append((('bin', 'and', u, ('bin', 'and', w, t)), f'reference required as {sorted(req)[0]} reused as {name} with a loosely typed occurrence in between'))
     return out
 
 
